@@ -226,6 +226,11 @@ func runPairUntilComplete(p *sim.Pair, s *sim.SessSim, faultsEnd int64, segs int
 	last, lastAt := pairSignature(p), s.Now()
 	for err == nil && !p.Complete() {
 		err = p.Run(s.Now()+20_000, false)
+		for w := 0; w < 2; w++ {
+			if p.ReaderPaused(w) { // a scripted stall in progress is a fault in progress
+				lastAt = max(lastAt, s.Now())
+			}
+		}
 		if sig := pairSignature(p); sig != last {
 			last, lastAt = sig, s.Now()
 			continue
